@@ -136,7 +136,14 @@ def check_kernel_spherical(ctx: Ctx):
                 ex = fv.expand(v, s, stop=(d1, d2, out))
                 e = conv_ast(ex)
             except NotAlgebraic as exc:
-                ctx.undecided("TERM", tag, (kern, s), f"store not algebraic: {exc}: {U(v)}")
+                clamp = [c_ for c_ in ast.walk(ex if "ex" in dir() else v) if isinstance(c_, ast.Call) and U(c_.func).split(".")[-1] in ("max", "min", "maximum", "minimum", "clip", "fmax", "fmin")]
+                if clamp:
+                    # a clamped operand: below / above the clamp the stored value is not the conserved quantity (positive volumes of any
+                    # size are in the domain: micrometre droplets in metres have volumes far below machine epsilon)
+                    ctx.violate("TERM", tag, (kern, s), f"`{U(v)[:80]}` clamps an operand (`{U(clamp[0])[:40]}`): for values beyond the clamp the stored {fld} is not the "
+                                "volume-additive radius / volume-weighted mean position — e.g. a total volume below the clamp scales the merged centre towards the origin")
+                else:
+                    ctx.undecided("TERM", tag, (kern, s), f"store not algebraic: {exc}: {U(v)}")
                 continue
             shown = e.show()
             V1, V2 = Expr.atom(f"VfR({d1}.radius, D)"), Expr.atom(f"VfR({d2}.radius, D)")
@@ -363,6 +370,10 @@ def check(ctx: Ctx):
     from ..rules import support as _sup_r11
 
     _sup_r11.check_flag_tests(ctx, ("droplets.droplets.DropletBase.merge",))
+    # a droplet that went through pickle (a worker process, a saved session) is still writeable: in-place merging writes its record
+    from . import c15 as _c15_r12
+
+    _c15_r12.check_pickle_writable(ctx)
     ctx.expect("FLAGTEST", 1)
     check_kernel_spherical(ctx)
     check_kernel_diffuse(ctx)
